@@ -32,6 +32,8 @@ CLAIMED = {
          "Seeded exploration of identity-changing histories; comparison covers every public getter incl. committee draws and ordered pool members.", LEDGER_NOTE, "3 C10"),
  "C14": ("exploration", "deterministic simulation: 5-8 tasks (clients, engine, sync toggler, queries) over one real TxPool + chain under a baton scheduler; every cooperative lock acquisition is a tape-decided scheduling point; candidate-list, retention and removal invariants; deadlock detection",
          "Seeded search over interleavings at lock granularity with exact replay; the data-race clause of the property is NOT decided by this technique (stated in DESIGN 3 C14 L).", "tx keeper persistence off; push tracker loops of the pool not started; candidate lists are taken by the block-inserting task, as the engine does.", "3 C14"),
+ "C15": ("exploration", "deterministic simulation: contract-heavy client (5 embedded contracts x 2 generations, 5 bundled WASM contracts, arbitrary methods/arguments/gas), per-transaction application with one real VM per block; receipt vs effect on all balances, stakes, contract stakes and buffered store writes; burns from the environment's own reports",
+         "Seeded exploration of programs/inputs in simulated block contexts; the simulation contributes state and block-context variety and the proposer/validator agreement for these blocks.", LEDGER_NOTE, "3 C15"),
  "C19": ("exploration", "seeded request-shape x transport x life-cycle matrix against the real rpc.Server with a probe service (real goroutines, order-insensitive oracle; no simulated scheduler: the gate cannot depend on schedules)",
          "Low-leverage use of the technique, stated as such: seeded generation of exchanges over in-memory transports plus a deterministic life-cycle probe (request sent to the initial endpoint at the DatabaseInitEvent of node.NewNodeWithInjections).", "In-memory transports (httptest recorder, net.Pipe) instead of sockets for the component part; the life-cycle part uses a real localhost listener and abandons node construction at the content-store stub.", "3 C19"),
  "C20": ("exploration", "deterministic simulation: peers as tasks announcing to the real PushPullManager/holder/tracker, tracker loop + gc as tasks on the virtual clock, go-cache on the virtual clock, responder with drawn latencies; pull-request history rules, bounded liveness after announcements stop, drain of internal sizes",
